@@ -117,6 +117,11 @@ static Result run_case (const Case &c)
 		sf_close (w) ;
 	}
 	SF_INFO oi = info ; if (pre > 0 && maj != SF_FORMAT_RAW) memset (&oi, 0, sizeof (oi)) ;
+	// SD2: a headerless data fork whose first bytes look like another container is taken for that container (finding listed under C01 / C04 too)
+	if ((format & SF_FORMAT_TYPEMASK) == SF_FORMAT_SD2 && pre > 0)
+	{	std::vector<uint8_t> fork ; read_file (fname, fork) ; MemFile probe ; probe.data = fork ; SF_INFO pi ; memset (&pi, 0, sizeof (pi)) ;
+		SNDFILE *pf = open_mem (probe, SFM_READ, &pi) ; if (pf) { sf_close (pf) ; r.sig.set ("sd2_datafork_looks_like", major_name (pi.format)) ; }
+	}
 	SNDFILE *f = sf_open (fname.c_str (), SFM_RDWR, &oi) ;
 	if (!f) { unlink (fname.c_str ()) ; return fail ("rdwr_open_failed", sf_strerror (nullptr)) ; }
 	prep (f) ;
